@@ -15,7 +15,7 @@ for p in $props; do
     [ -d schemas ] && cp -r schemas "$tmp/verif/"
     rsync -a --exclude .git /repo/ "$tmp/repo/"
     if ! (cd "$tmp/repo" && patch -s -p1 < "$OLDPWD/$patch"); then echo "SELFTEST-ERROR $p/$name: patch does not apply"; bad=1; rm -rf "$tmp"; continue; fi
-    genonly=""; case "$p" in C15|C34|C33|C17) genonly="${SELFTEST_GEN_ONLY:-vlists}";; esac   # generated-code properties: one corpus schema is enough to exercise a template
+    genonly=""; case "$p" in C15|C34|C33) genonly="${SELFTEST_GEN_ONLY:-vlists}";; C17) genonly="${SELFTEST_GEN_ONLY:-venums,vneg}";; esac   # generated-code properties: one corpus schema is enough to exercise a template
     out=$(VERIF_GEN_ONLY="$genonly" bin/govc check -prop "$p" -repo "$tmp/repo" -verif "$tmp/verif" 2>&1); code=$?
     case "$name" in
       mustfail-*) want=1;;
